@@ -1167,3 +1167,448 @@ def fam_X(tier):
     yield from x_bounds_cases(tier)
     yield from x_indextype_cases(tier)
     yield from x_mask_cases(tier)
+
+
+# =============================================================================================
+# C: calls - by-value arguments, isolated frames, chosen overload (C03)
+# =============================================================================================
+F4 = ("vec", "float", 4)
+I4 = ("vec", "int", 4)
+F3 = ("vec", "float", 3)
+M3 = ("mat", "float", 3, 3)
+F2 = ("vec", "float", 2)
+I2 = ("vec", "int", 2)
+C_TYPES = {"int": "int", "float": "float", "int4": I4, "float4": F4, "float3x3": M3}
+
+
+def CTOR(t, *args):
+    return ("ctor", t, list(args))
+
+
+def c_values(tn):
+    return {"int": (5, -3), "float": (1.5, 4.0), "int4": ([1, 2, 3, 4], [10, 20, 30, 40]), "float4": ([1.0, 2.0, 3.0, 4.0], [0.5, 1.5, 2.5, 3.5]),
+            "float3x3": ([[1.0, 2.0, 3.0], [4.0, 5.0, 6.0], [7.0, 8.0, 9.0]], [[0.5, 0.0, 0.0], [0.0, 1.5, 0.0], [0.0, 0.0, 2.5]])}[tn]
+
+
+def c_actions(tn):
+    """(name, statements acting on the callee's parameter p)"""
+    T = C_TYPES[tn]
+    sc = tn in ("int", "float")
+    one = lit(1.0) if tn == "float" else lit(1)
+    nine = lit(9.0) if "float" in tn else lit(9)
+    acts = [("nothing", [])]
+    if sc:
+        acts += [("assign", [ASG(V("p"), B("+", V("p"), lit(100)))]), ("compound", [ASG(V("p"), one, "+=")]), ("pre-inc", [("expr", ("pre", "++", "p"))]),
+                 ("post-dec", [("expr", ("post", "--", "p"))])]
+    elif tn in ("int4", "float4"):
+        acts += [("assign", [ASG(V("p"), B("+", V("p"), V("p")))]), ("index-write", [ASG(IDX(V("p"), 1), nine)]), ("index-write-dyn", [ASG(IDX(V("p"), V("k")), nine)]),
+                 ("swizzle-write", [ASG(("swz", V("p"), "x"), nine)]), ("swizzle-write2", [ASG(("swz", V("p"), "wy"), CTOR(("vec", T[1], 2), nine, nine))]),
+                 ("compound", [ASG(V("p"), lit(2.0) if tn == "float4" else lit(2), "*=")])]
+    else:
+        acts += [("assign", [ASG(V("p"), B("+", V("p"), V("p")))]), ("row-write", [ASG(IDX(V("p"), 1), CTOR(F3, lit(9.0), lit(8.0), lit(7.0)))]),
+                 ("elem-write", [ASG(IDX(IDX(V("p"), 2), 0), lit(9.0))]), ("elem-write-dyn", [ASG(IDX(IDX(V("p"), V("k")), V("k")), lit(9.0))])]
+    acts.append(("same-name-local", [("decl", T, "l1", None), ASG(V("l1"), V("p")), ("decl", "int", "sel", lit(77)), ASG(V("p"), V("l1"))]))
+    return acts
+
+
+def c_case(tn, shape, aname, action):
+    T = C_TYPES[tn]
+    g = func("g", [(T, "p"), ("int", "k")], T, list(action) + [("ret", V("p"))], export=False)
+    helpers = [g]
+    call = lambda a, k=1: ("call", "g", [a, lit(k)])
+    pre, post = [], []
+    if shape == "single":
+        stm = [ASG(V("r"), call(V("l1")))]
+    elif shape == "two-in-expression":
+        stm = [ASG(V("r"), B("+", call(V("l1")), call(V("a2"), 2)))]
+    elif shape == "nested":
+        stm = [ASG(V("r"), call(call(V("l1")), 2))]
+    elif shape == "operand-after-call":
+        stm = [ASG(V("r"), B("+", call(V("l1")), V("l1")))]
+    elif shape == "operand-before-call":
+        stm = [ASG(V("r"), B("+", V("a1"), call(V("a1"))))]
+    elif shape == "in-loop":
+        stm = [("for", ("decl", "int", "it", lit(0)), B("<", V("it"), lit(2)), ("pre", "++", "it"), ("block", [ASG(V("r"), B("+", V("r"), call(V("l1")))), ASG(V("l2"), B("+", V("l2"), V("a1")))]))]
+    elif shape == "exported-callee":
+        helpers = [func("g", [(T, "p"), ("int", "k")], T, list(action) + [("ret", V("p"))], export=True)]
+        stm = [ASG(V("r"), call(V("l1")))]
+    elif shape == "recursion":
+        rec = func("g", [(T, "p"), ("int", "k")], T,
+                   [("decl", T, "q", V("p")), ("if", B(">", V("k"), lit(0)), ("block", list(action) + [ASG(V("q"), ("call", "g", [V("p"), B("-", V("k"), lit(1))]))]), None),
+                    ("ret", B("+", V("p"), V("q")))], export=False)
+        helpers = [rec]
+        stm = [ASG(V("r"), ("call", "g", [V("l1"), lit(2)]))]
+    elif shape == "mutual-recursion":
+        ga = func("g", [(T, "p"), ("int", "k")], T,
+                  [("decl", T, "q", V("p")), ("if", B(">", V("k"), lit(0)), ("block", list(action) + [ASG(V("q"), ("call", "h", [V("p"), B("-", V("k"), lit(1))]))]), None),
+                   ("ret", B("+", V("p"), V("q")))], export=False)
+        hb = func("h", [(T, "p"), ("int", "k")], T,
+                  [("decl", T, "q", V("p")), ("if", B(">", V("k"), lit(0)), ("block", [ASG(V("q"), ("call", "g", [V("p"), B("-", V("k"), lit(1))]))] + list(action)), None),
+                   ("ret", B("-", V("q"), V("p")))], export=False)
+        helpers = [ga, hb]
+        stm = [ASG(V("r"), ("call", "g", [V("l1"), lit(3)]))]
+    else:
+        raise ValueError(shape)
+    body = [("decl", T, "l1", B("+", V("a1"), V("a2"))), ("decl", T, "l2", V("a2")), ("decl", T, "r", V("a1"))] + stm
+    locs = [V("r"), V("a1"), V("a2"), V("l1"), V("l2")]
+    body += [("if", B("==", V("sel"), lit(n)), ("block", [("ret", lv)]), None) for n, lv in enumerate(locs)]
+    body.append(("ret", V("r")))
+    f = func("f", [("int", "sel"), (T, "a1"), (T, "a2")], T, body)
+    v1, v2 = c_values(tn)
+    inputs = [({"sel": s, "a1": v1, "a2": v2}, {}) for s in range(len(locs))]
+    return {"fam": "C", "desc": f"shape={shape};type={tn};callee={aname}", "prog": {"funcs": helpers},
+            "units": [{"funcs": [f], "entry": "f", "inputs": inputs}]}
+
+
+def c_overload_case(pair, which, mutate):
+    """Overloaded callee selected by the static argument type; each overload tags its result and mutates its parameter."""
+    (ta, tb) = pair
+    names = {"int": "int", "float": "float", "float2": F2, "float4": F4, "int2": I2}
+    Ta, Tb = names[ta], names[tb]
+
+    def ov(T, tag):
+        body = []
+        if mutate:
+            if isinstance(T, str):
+                body.append(ASG(V("p"), B("+", V("p"), lit(50))))
+            else:
+                body.append(ASG(IDX(V("p"), 0), lit(50.0) if T[1] == "float" else lit(50)))
+        first = V("p") if isinstance(T, str) else IDX(V("p"), 0)
+        body.append(("ret", B("+", B("*", first, lit(0)), lit(tag))))
+        return func("ov", [(T, "p")], "int" if (isinstance(T, str) and T == "int") or (not isinstance(T, str) and T[1] == "int") else "float", body, export=False)
+    helpers = [ov(Ta, 1), ov(Tb, 2)]
+    T = names[which]
+    rt = helpers[0]["ret"] if which == ta else helpers[1]["ret"]
+    body = [("decl", rt, "r", ("call", "ov", [V("a1")])),
+            ("if", B("==", V("sel"), lit(0)), ("block", [("ret", V("r"))]), None)]
+    first = V("a1") if isinstance(T, str) else IDX(V("a1"), 0)
+    body.append(("ret", B("+", B("*", V("r"), lit(0)), first)))
+    f = func("f", [("int", "sel"), (T, "a1")], rt, body)
+    val = {"int": 5, "float": 1.5, "float2": [1.5, 2.5], "float4": [1.5, 2.5, 3.5, 4.5], "int2": [3, 4]}[which]
+    return {"fam": "C", "desc": f"shape=overload;pair={ta}/{tb};arg={which};mutate={int(mutate)}", "prog": {"funcs": helpers},
+            "units": [{"funcs": [f], "entry": "f", "inputs": [({"sel": s, "a1": val}, {}) for s in (0, 1)]}]}
+
+
+def c_convert_case(kind):
+    """Argument conversions at the call boundary (values where floor = trunc)."""
+    if kind == "int-to-float":
+        g = func("g", [("float", "p")], "float", [ASG(V("p"), B("/", V("p"), lit(2))), ("ret", V("p"))], export=False)
+        f = func("f", [("int", "a1")], "float", [("decl", "float", "r", ("call", "g", [V("a1")])), ("ret", B("+", V("r"), V("a1")))])
+        ins = [({"a1": v}, {}) for v in (3, -5, 0)]
+    elif kind == "float-to-int":
+        g = func("g", [("int", "p")], "int", [ASG(V("p"), B("/", V("p"), lit(2))), ("ret", V("p"))], export=False)
+        f = func("f", [("float", "a1")], "float", [("decl", "int", "r", ("call", "g", [V("a1")])), ("ret", B("+", V("r"), V("a1")))])
+        ins = [({"a1": v}, {}) for v in (7.0, -4.0, 0.0)]
+    else:
+        g = func("g", [("float", "p"), ("int", "q")], "float", [("ret", B("+", V("p"), V("q")))], export=False)
+        f = func("f", [("int", "a1"), ("float", "a2")], "float", [("ret", ("call", "g", [V("a1"), V("a2")]))])
+        ins = [({"a1": 3, "a2": 2.0}, {}), ({"a1": -1, "a2": 8.0}, {})]
+    return {"fam": "C", "desc": f"shape=converting-call;kind={kind}", "prog": {"funcs": [g]}, "units": [{"funcs": [f], "entry": "f", "inputs": ins}]}
+
+
+@family("C")
+def fam_C(tier):
+    shapes = ["single", "two-in-expression", "nested", "operand-after-call", "operand-before-call", "in-loop", "exported-callee", "recursion", "mutual-recursion"]
+    for tn in C_TYPES:
+        for shape in shapes:
+            for aname, action in c_actions(tn):
+                yield (c_case, tn, shape, aname, action)
+            if tier == "thorough":
+                acts = c_actions(tn)
+                for (n1, a1), (n2, a2) in itertools.permutations(acts[1:-1], 2):
+                    yield (c_case, tn, shape, n1 + "+" + n2, a1 + a2)
+    for pair in (("int", "float"), ("float2", "float4"), ("int2", "float2")):
+        for which in pair:
+            for mutate in (False, True):
+                yield (c_overload_case, pair, which, mutate)
+    for kind in ("int-to-float", "float-to-int", "mixed-two-args"):
+        yield (c_convert_case, kind)
+
+
+# =============================================================================================
+# V: vectors and matrices are values (C04)
+# =============================================================================================
+def VT(c, n):
+    return ("vec", c, n)
+
+
+def vec_value(c, n, base=1):
+    return [float(base + 2 * i) + 0.5 if c == "float" else base + 2 * i for i in range(n)]
+
+
+def mat_value(n, base=1):
+    return [[float(base + i * n + j) + (0.5 if (i + j) % 2 else 0.0) for j in range(n)] for i in range(n)]
+
+
+def masks(n, maxlen, letters):
+    for L in range(1, maxlen + 1):
+        for tup in itertools.product(letters[:n], repeat=L):
+            yield "".join(tup)
+
+
+def _pack(fam, units, desc, mode="min", prog=None, size=24):
+    for i in range(0, len(units), size):
+        chunk = units[i:i + size]
+        for j, u in enumerate(chunk):
+            u = dict(u)
+        yield {"fam": fam, "desc": desc, "units": chunk, "mode": mode, "prog": prog or {}}
+
+
+def v_swizzle_read_units(tier):
+    units = []
+    for c in ("float", "int"):
+        for n in (2, 3, 4):
+            for letters in ("xyzw", "rgba"):
+                if c == "int" and letters == "rgba" and tier == "quick":
+                    continue
+                for mask in masks(n, 4 if (tier == "thorough" or n <= 3) else 3, letters):
+                    L = len(mask)
+                    rt = c if L == 1 else VT(c, L)
+                    name = f"f{len(units)}"
+                    units.append({"funcs": [func(name, [(VT(c, n), "v")], rt, [("ret", ("swz", V("v"), mask))])], "entry": name,
+                                  "inputs": [({"v": vec_value(c, n)}, {})], "desc": f"swizzle-read;len={L};{c};whole"})
+                    if L <= 2:
+                        name = f"f{len(units)}"
+                        e = B("+", ("swz", V("v"), mask), ("swz", V("v"), mask[::-1]))
+                        units.append({"funcs": [func(name, [(VT(c, n), "v")], rt, [("ret", e)])], "entry": name,
+                                      "inputs": [({"v": vec_value(c, n)}, {})], "desc": f"swizzle-read;len={L};{c};operand"})
+                    if L >= 2 and L <= 3 and letters == "xyzw" and c == "float":
+                        for top in masks(L, 2, "xyzw"):
+                            name = f"f{len(units)}"
+                            rt2 = c if len(top) == 1 else VT(c, len(top))
+                            units.append({"funcs": [func(name, [(VT(c, n), "v")], rt2, [("ret", ("swz", ("swz", V("v"), mask), top))])], "entry": name,
+                                          "inputs": [({"v": vec_value(c, n)}, {})], "desc": f"swizzle-of-swizzle;{c}"})
+    return units
+
+
+def _perm_masks(n, letters):
+    for L in range(1, n + 1):
+        for tup in itertools.permutations(letters[:n], L):
+            yield "".join(tup)
+
+
+V_STRUCTS = [("SV", [(VT("float", 4), "vf"), ("float", "sc"), (("mat", "float", 3, 3), "mf")])]
+
+
+def v_write_case(kind, c, n, mask, target):
+    """Swizzle / index write on a target location; returns whole variables selected by sel."""
+    T = VT(c, n)
+    num = (lambda k: lit(float(k))) if c == "float" else (lambda k: lit(k))
+    L = len(mask) if kind == "swizzle" else 1
+    if kind == "swizzle":
+        rhs = num(91) if L == 1 else CTOR(VT(c, L), *[num(91 + i) for i in range(L)])
+    else:
+        rhs = num(91)
+    globals_ = [(T, "gv")]
+    params = [("int", "sel"), ("int", "i"), (T, "pv"), (T, "other")]
+    body = [("decl", T, "lv", V("other")), ("decl", T, "keep", V("other"))]
+    if target == "local":
+        base = V("lv")
+    elif target == "param":
+        base = V("pv")
+    elif target == "global":
+        base = V("gv")
+    elif target == "array-elem":
+        body += [("decl", ("arr", T, (2,)), "av", None), ASG(IDX(V("av"), 0), V("other")), ASG(IDX(V("av"), 1), V("pv"))]
+        base = IDX(V("av"), 1)
+    elif target == "array-elem-dyn":
+        body += [("decl", ("arr", T, (2,)), "av", None), ASG(IDX(V("av"), 0), V("other")), ASG(IDX(V("av"), 1), V("pv"))]
+        base = IDX(V("av"), V("i"))
+    else:
+        raise ValueError(target)
+    if kind == "swizzle":
+        lv = ("swz", base, mask)
+    elif kind == "index":
+        lv = IDX(base, mask)          # mask is a constant index here
+    else:
+        lv = IDX(base, V("i"))
+    body.append(ASG(lv, rhs))
+    locs = [V("lv"), V("pv"), V("gv"), V("keep"), V("other")]
+    if target.startswith("array"):
+        locs += [IDX(V("av"), 0), IDX(V("av"), 1)]
+    body += [("if", B("==", V("sel"), lit(k)), ("block", [("ret", e)]), None) for k, e in enumerate(locs)]
+    body.append(("ret", V("keep")))
+    f = func("f", params, T, body)
+    ivals = (0, 1) if (kind == "index-dyn" or target == "array-elem-dyn") else (1,)
+    if kind == "index-dyn":
+        ivals = tuple(range(n))
+        if target == "array-elem-dyn":
+            ivals = (0, 1)
+    inputs = [({"sel": s, "i": i, "pv": vec_value(c, n, 1), "other": vec_value(c, n, 20)}, {"gv": vec_value(c, n, 40)}) for i in ivals for s in range(len(locs))]
+    return {"fam": "V", "desc": f"{kind}-write;target={target};{c}{n};len={L}", "prog": {"globals": globals_},
+            "units": [{"funcs": [f], "entry": "f", "inputs": inputs}]}
+
+
+def v_struct_matrix_write_case(kind, mask):
+    """Writes through struct fields and matrix rows (write-back chains)."""
+    structs = V_STRUCTS
+    M = ("mat", "float", 3, 3)
+    params = [("int", "sel"), ("int", "i"), (M, "pm"), (VT("float", 4), "p4")]
+    body = [("decl", ("struct", "SV"), "s", None), ASG(FLD(V("s"), "vf"), V("p4")), ASG(FLD(V("s"), "sc"), lit(3.5)), ASG(FLD(V("s"), "mf"), V("pm")),
+            ("decl", M, "lm", V("pm")), ("decl", M, "keep", V("pm"))]
+    L = len(mask)
+    rhs = lit(91.0) if L == 1 else CTOR(VT("float", L), *[lit(91.0 + k) for k in range(L)])
+    if kind == "field-swizzle":
+        body.append(ASG(("swz", FLD(V("s"), "vf"), mask), rhs))
+    elif kind == "field-index":
+        body.append(ASG(IDX(FLD(V("s"), "vf"), 2), lit(91.0)))
+    elif kind == "row-swizzle":
+        body.append(ASG(("swz", IDX(V("lm"), 1), mask), rhs))
+    elif kind == "row-swizzle-dyn":
+        body.append(ASG(("swz", IDX(V("lm"), V("i")), mask), rhs))
+    elif kind == "field-matrix-elem":
+        body.append(ASG(IDX(IDX(FLD(V("s"), "mf"), 1), 2), lit(91.0)))
+    elif kind == "field-matrix-row":
+        body.append(ASG(IDX(FLD(V("s"), "mf"), 2), CTOR(VT("float", 3), lit(91.0), lit(92.0), lit(93.0))))
+    elif kind == "global-matrix-elem":
+        body.append(ASG(IDX(IDX(V("gm"), V("i")), 1), lit(91.0)))
+    elif kind == "param-matrix-row":
+        body.append(ASG(IDX(V("pm"), V("i")), CTOR(VT("float", 3), lit(91.0), lit(92.0), lit(93.0))))
+    else:
+        raise ValueError(kind)
+    # read back: matrices by sel 0..3, struct vector by 4 (returned as a matrix row construct is not possible: separate exported readers)
+    readers = [("lm", V("lm")), ("pm", V("pm")), ("keep", V("keep")), ("s.mf", FLD(V("s"), "mf")), ("gm", V("gm"))]
+    body += [("if", B("==", V("sel"), lit(k)), ("block", [("ret", e)]), None) for k, (nm, e) in enumerate(readers)]
+    # vector readers encoded into the first row of a matrix
+    body.append(("ret", CTOR(M, ("swz", FLD(V("s"), "vf"), "xyz"), CTOR(VT("float", 3), ("swz", FLD(V("s"), "vf"), "w"), FLD(V("s"), "sc"), lit(0.0)), ("swz", V("p4"), "xyz"))))
+    f = func("f", params, M, body)
+    inputs = [({"sel": s, "i": i, "pm": mat_value(3, 1), "p4": vec_value("float", 4, 30)}, {"gm": mat_value(3, 50)}) for i in (0, 2) for s in range(len(readers) + 1)]
+    return {"fam": "V", "desc": f"chain-write;{kind};len={L}", "prog": {"structs": structs, "globals": [(M, "gm")]},
+            "units": [{"funcs": [f], "entry": "f", "inputs": inputs}]}
+
+
+def v_misc_units(tier):
+    """Index reads, operators, constructors - independent functions, packed."""
+    units = []
+
+    def add(params, rt, e, inputs, desc):
+        name = f"f{len(units)}"
+        units.append({"funcs": [func(name, params, rt, [("ret", e)])], "entry": name, "inputs": inputs, "desc": desc})
+
+    for c in ("float", "int"):
+        for n in (2, 3, 4):
+            T = VT(c, n)
+            a, b = vec_value(c, n, 1), vec_value(c, n, 30)
+            b2 = list(b)
+            b2[0] = a[0]
+            for k in range(n):
+                add([(T, "v")], c, IDX(V("v"), k), [({"v": a}, {})], f"index-read;const;{c}")
+            add([(T, "v"), ("int", "i")], c, IDX(V("v"), V("i")), [({"v": a, "i": i}, {}) for i in range(n)], f"index-read;dyn;{c}")
+            for op in ("+", "-"):
+                add([(T, "v"), (T, "w")], T, B(op, V("v"), V("w")), [({"v": a, "w": b}, {})], f"vector{op}vector;{c}")
+            for op in CMPOPS:
+                add([(T, "v"), (T, "w")], VT("int", n), B(op, V("v"), V("w")), [({"v": a, "w": b2}, {}), ({"v": b2, "w": a}, {})], f"vector-compare;{c}")
+            sc = 2.0 if c == "float" else 3
+            add([(T, "v"), (c, "s")], T, B("*", V("v"), V("s")), [({"v": a, "s": sc}, {})], f"vector*scalar;{c}")
+            add([(T, "v"), (c, "s")], T, B("*", V("s"), V("v")), [({"v": a, "s": sc}, {})], f"scalar*vector;{c}")
+            add([(T, "v"), (c, "s")], T, B("/", V("v"), V("s")), [({"v": b, "s": sc}, {})], f"vector/scalar;{c}")
+            if c == "int":
+                add([(T, "v"), (T, "w")], T, B("%", V("w"), V("v")), [({"v": a, "w": b}, {})], "vector%vector;int")
+            add([(T, "v"), (T, "w")], T, B("&&", V("v"), V("w")), [({"v": [0] + a[1:] if c == "int" else [0.0] + a[1:], "w": b}, {})], f"vector&&vector;{c}")
+            add([(T, "v"), (T, "w")], T, B("||", V("v"), V("w")), [({"v": [0] * n if c == "int" else [0.0] * n, "w": [0] + b[1:] if c == "int" else [0.0] + b[1:]}, {})], f"vector||vector;{c}")
+    # mixed int/float vector arithmetic (promotion of a whole vector)
+    add([(VT("int", 3), "v"), (VT("float", 3), "w")], VT("float", 3), B("+", V("v"), V("w")), [({"v": [1, 2, 3], "w": [0.5, 1.5, 2.5]}, {})], "vector+vector;mixed")
+    add([(VT("int", 3), "v"), ("float", "s")], VT("float", 3), B("*", V("v"), V("s")), [({"v": [1, 2, 3], "s": 1.5}, {})], "vector*scalar;mixed")
+    for n in (3, 4):
+        M = ("mat", "float", n, n)
+        A, Bm = mat_value(n, 1), mat_value(n, 40)
+        Bm[0][1] = 0.25
+        for r in range(n):
+            add([(M, "m")], VT("float", n), IDX(V("m"), r), [({"m": A}, {})], "matrix-row-read;const")
+            for k in range(n):
+                add([(M, "m")], "float", IDX(IDX(V("m"), r), k), [({"m": A}, {})], "matrix-elem-read;const")
+        add([(M, "m"), ("int", "i"), ("int", "j")], "float", IDX(IDX(V("m"), V("i")), V("j")), [({"m": A, "i": i, "j": j}, {}) for i in range(n) for j in range(n)], "matrix-elem-read;dyn")
+        add([(M, "m"), ("int", "i")], VT("float", n), IDX(V("m"), V("i")), [({"m": A, "i": i}, {}) for i in range(n)], "matrix-row-read;dyn")
+        for op in ("+", "-"):
+            add([(M, "m"), (M, "k")], M, B(op, V("m"), V("k")), [({"m": A, "k": Bm}, {})], f"matrix{op}matrix")
+        add([(M, "m"), (M, "k")], M, B("*", V("m"), V("k")), [({"m": A, "k": Bm}, {}), ({"m": Bm, "k": A}, {})], "matrix*matrix")
+        add([(M, "m"), ("float", "s")], M, B("*", V("m"), V("s")), [({"m": A, "s": 2.0}, {})], "matrix*scalar")
+        add([(M, "m"), ("float", "s")], M, B("*", V("s"), V("m")), [({"m": A, "s": 2.0}, {})], "scalar*matrix")
+        add([(M, "m"), ("float", "s")], M, B("/", V("m"), V("s")), [({"m": A, "s": 2.0}, {})], "matrix/scalar")
+        add([(M, "m"), (VT("float", n), "v")], VT("float", n), B("*", V("m"), V("v")), [({"m": A, "v": vec_value("float", n, 3)}, {})], "matrix*vector")
+        add([(VT("float", n), "a"), (VT("float", n), "b"), (VT("float", n), "c"), (VT("float", n), "d")], M,
+            CTOR(M, *[V(x) for x in "abcd"[:n]]), [({x: vec_value("float", n, 10 * (k + 1)) for k, x in enumerate("abcd")}, {})], "matrix-ctor;rows")
+    # constructors: every composition of n into ordered parts from {scalar, vec2, vec3}
+    for c in ("float", "int"):
+        for n in (2, 3, 4):
+            for parts in _compositions_from(n, (1, 2, 3)):
+                if parts == (n,) and n > 1:
+                    pass
+                params, args, vals = [], [], {}
+                base = 1
+                for k, p in enumerate(parts):
+                    nm = f"q{k}"
+                    if p == 1:
+                        params.append((c, nm))
+                        vals[nm] = float(base) + 0.5 if c == "float" else base
+                    else:
+                        params.append((VT(c, p), nm))
+                        vals[nm] = vec_value(c, p, base)
+                    args.append(V(nm))
+                    base += 10
+                if len(parts) == 1 and parts[0] == n:
+                    continue   # float3(vec3) is a plain copy; covered by copies
+                add(params, VT(c, n), CTOR(VT(c, n), *args), [(vals, {})], f"vector-ctor;{c};parts={len(parts)}")
+    # constructor with int arguments for a float vector (promotion per component)
+    add([("int", "a"), ("float", "b"), (VT("int", 2), "w")], VT("float", 4), CTOR(VT("float", 4), V("a"), V("b"), V("w")), [({"a": 3, "b": 1.5, "w": [7, 9]}, {})], "vector-ctor;mixed-component-types")
+    return units
+
+
+def _compositions_from(n, parts):
+    if n == 0:
+        yield ()
+        return
+    for p in parts:
+        if p <= n:
+            for rest in _compositions_from(n - p, parts):
+                yield (p,) + rest
+
+
+def v_copy_case(tn, mutate, which):
+    """Copy a vector/matrix, mutate source or copy through one write form, read both."""
+    T = VT("float", 4) if tn == "float4" else ("mat", "float", 3, 3)
+    body = [("decl", T, "src", V("p")), ("decl", T, "cpy", V("src"))]
+    tgt = V("src") if which == "source" else V("cpy")
+    if tn == "float4":
+        w = {"index": ASG(IDX(tgt, 1), lit(91.0)), "index-dyn": ASG(IDX(tgt, V("i")), lit(91.0)), "swizzle": ASG(("swz", tgt, "zx"), CTOR(VT("float", 2), lit(91.0), lit(92.0))),
+             "assign": ASG(tgt, B("*", tgt, lit(2.0))), "compound": ASG(tgt, lit(2.0), "*=")}[mutate]
+    else:
+        w = {"index": ASG(IDX(tgt, 1), CTOR(VT("float", 3), lit(91.0), lit(92.0), lit(93.0))), "index-dyn": ASG(IDX(IDX(tgt, V("i")), V("i")), lit(91.0)),
+             "swizzle": ASG(("swz", IDX(tgt, 2), "y"), lit(91.0)), "assign": ASG(tgt, B("+", tgt, tgt)), "compound": ASG(tgt, lit(2.0), "*=")}[mutate]
+    body.append(w)
+    locs = [V("src"), V("cpy"), V("p")]
+    body += [("if", B("==", V("sel"), lit(k)), ("block", [("ret", e)]), None) for k, e in enumerate(locs)]
+    body.append(("ret", V("p")))
+    f = func("f", [("int", "sel"), ("int", "i"), (T, "p")], T, body)
+    val = vec_value("float", 4, 1) if tn == "float4" else mat_value(3, 1)
+    return {"fam": "V", "desc": f"copy;{tn};mutate={mutate};of={which}", "units": [{"funcs": [f], "entry": "f", "inputs": [({"sel": s, "i": i, "p": val}, {}) for i in (0, 2) for s in range(3)]}]}
+
+
+@family("V")
+def fam_V(tier):
+    yield from _pack("V", v_swizzle_read_units(tier), "swizzle-read")
+    yield from _pack("V", v_misc_units(tier), "vector-matrix-ops")
+    for c in ("float", "int"):
+        for n in (2, 3, 4):
+            for target in ("local", "param", "global", "array-elem", "array-elem-dyn"):
+                if c == "int" and tier == "quick" and target not in ("local", "global"):
+                    continue
+                for mask in _perm_masks(n, "xyzw"):
+                    yield (v_write_case, "swizzle", c, n, mask, target)
+                if c == "float" and target == "local":
+                    for mask in _perm_masks(n, "rgba"):
+                        yield (v_write_case, "swizzle", c, n, mask, target)
+                for k in range(n):
+                    yield (v_write_case, "index", c, n, k, target)
+                yield (v_write_case, "index-dyn", c, n, None, target)
+    for kind in ("field-swizzle", "row-swizzle", "row-swizzle-dyn"):
+        for mask in (list(_perm_masks(4, "xyzw")) if kind == "field-swizzle" else list(_perm_masks(3, "xyzw"))):
+            if tier == "quick" and len(mask) > 2 and kind != "field-swizzle":
+                continue
+            yield (v_struct_matrix_write_case, kind, mask)
+    for kind in ("field-index", "field-matrix-elem", "field-matrix-row", "global-matrix-elem", "param-matrix-row"):
+        yield (v_struct_matrix_write_case, kind, "x")
+    for tn in ("float4", "float3x3"):
+        for mutate in ("index", "index-dyn", "swizzle", "assign", "compound"):
+            for which in ("source", "copy"):
+                yield (v_copy_case, tn, mutate, which)
